@@ -174,8 +174,16 @@ class Mon:
                     self.ctx.fail("packnames:unreadable-version", "pack-names written by %s cannot be parsed / its packs read: %r" % (e.actor, ex), detail)
                 return
             if missing_files:
-                self.ctx.fail("packnames:lists-pack-without-files", "pack-names version %d written by %s lists %r whose pack/index files are not in place" % (self.versions, e.actor, missing_files[:3]),
-                              {"log_tail": [repr(x) for x in self.world.log[-40:]]})
+                # who took the files away?  (the writer itself - it obsoleted what it still lists - or another actor that
+                # had already written a pack-names version without that pack and is now obsoleting it)
+                creators, movers = set(), set()
+                for m_ in missing_files:
+                    c_, v_ = _pack_story(self.world.log, m_)
+                    creators |= c_
+                    movers |= v_
+                who = _story_key(creators, movers)
+                self.ctx.fail("packnames:lists-pack-without-files:" + who, "pack-names version %d written by %s lists %r whose pack/index files are not in place (moved away by %s)" % (
+                    self.versions, e.actor, missing_files[:3], sorted(movers) or "nobody"), {"log_tail": [repr(x) for x in self.world.log[-60:]]})
             lost = [r for r in self.acked if r not in visible]
             if lost:
                 self.ctx.fail("packnames:acked-revision-not-listed", "pack-names version %d written by %s no longer covers acknowledged revisions %r" % (self.versions, e.actor, sorted(lost)[:4]),
@@ -310,6 +318,28 @@ def _setup(ctx, fmt, committers):
     return root, repo_path
 
 
+def _pack_story(log, name):
+    """(creators, movers): actors that put a pack file under packs/<name>* and actors that moved it away."""
+    creators, movers = set(), set()
+    for x in log:
+        if x.op not in ("move", "rename"):
+            continue
+        dst = x.extra if isinstance(x.extra, str) else ""
+        if "/packs/" in dst and os.path.basename(dst).startswith(name):
+            creators.add(x.actor)
+        if "/packs/" in x.path and os.path.basename(x.path).startswith(name):
+            movers.add(x.actor)
+    return creators, movers
+
+
+def _story_key(creators, movers):
+    # the same content packed twice gets the same (content-hash) name: one actor's obsoletion then removes the files
+    # another actor has just listed again - distinct from a writer listing a pack it never built
+    if len(creators) >= 2:
+        return "same-name-built-by-%d-actors" % len(creators)
+    return "obsoleted-by-another-actor" if movers else "files-never-in-place"
+
+
 def case(ctx):
     from breezy.branch import Branch
     from breezy.controldir import ControlDir
@@ -368,7 +398,18 @@ def case(ctx):
     world.scheduler = None
     repo = Repository.open(repo_path)
     with repo.lock_read():
-        ids = set(repo.all_revision_ids())
+        try:
+            ids = set(repo.all_revision_ids())
+        except Exception as ex:
+            if "NoSuchFile" not in type(ex).__name__:
+                raise
+            # the final pack-names lists a pack whose files are gone: name who moved them away
+            missing = str(getattr(ex, "path", "") or ex).split(".")[0].split("'")[-1].split("/")[-1]
+            creators, movers = _pack_story(world.log, missing) if missing else (set(), set())
+            ctx.fail("final:listed-pack-missing:" + _story_key(creators, movers),
+                     "after all actors finished the repository cannot be read: %r (pack moved away by %s)" % (ex, movers or "nobody"),
+                     {"log_tail": [repr(x) for x in world.log[-60:]]})
+            return
         lost = [r for r in mon.acked if r not in ids]
         if lost:
             ctx.fail("final:acked-revision-lost", "acknowledged revisions missing at the end: %r" % (sorted(lost)[:5],), {"log_tail": [repr(x) for x in world.log[-80:]]})
